@@ -224,6 +224,7 @@ type callRes struct {
 	Ret   int    `json:"ret"`  // returned count
 	Err   string `json:"err"`  // error class
 	Sink  int    `json:"sink"` // sink length after the call
+	St    string `json:"st"`   // lifecycle state after the call (verif accessor)
 	Calls int    `json:"calls"`
 	// Flush on a sequential Writer: decoded length of the sink so far, and whether it equals
 	// the input accepted so far
@@ -351,6 +352,7 @@ func runWriter(o wopts, input []byte, calls []wcall, sink *recSink, blocks *[]in
 			}
 		}
 		r.Sink, r.Calls = sink.snapshot()
+		r.St, _ = zw.VerifState()
 		res = append(res, r)
 	}
 	return res, segs, ""
